@@ -166,6 +166,22 @@ def hashcons_check(tier, seed):
                 break
         if viol:
             break
+    # bit-vector constants: every value of the widths 1..6 and the edge values of wider ones, in the unsigned and the
+    # signed spelling: one object, and both value accessors report what it was built from
+    for w in (1, 2, 3, 4, 5, 6, 8, 16, 64, 65):
+        lo, hi = -(1 << (w - 1)), (1 << (w - 1)) - 1
+        vals = range(lo, hi + 1) if w <= 6 else sorted({lo, lo + 1, -2, -1, 0, 1, 2, hi - 1, hi})
+        for sv in vals:
+            if viol:
+                break
+            n += 1
+            u = sv % (1 << w)
+            c = m.SBV(sv, w)
+            if c is not m.BV(u, w):
+                viol.append({"key": "signed-and-unsigned-spelling-differ", "value": sv, "width": w})
+            elif (c.bv_width(), c.bv_unsigned_value(), c.constant_value(), c.bv_signed_value()) != (w, u, u, sv):
+                viol.append({"key": "bv-constant-accessors", "value": sv, "width": w,
+                             "got": [c.bv_width(), c.bv_unsigned_value(), c.constant_value(), c.bv_signed_value()]})
     for t in range(trials if not viol else 0):
         try:
             f = g.term(rng.choice([BOOL, BOOL, INT, REAL, BVType(3), ArrayType(INT, INT)]), rng.randint(1, 4))
@@ -238,7 +254,8 @@ def hashcons_check(tier, seed):
         if len(samples) < 3 and len(all_nodes(f)) > 6:
             samples.append(f.serialize()[:200])
     return {"name": "hashcons", "bounded": True, "evaluations": n, "distinct_nontrivial": nontriv,
-            "rule": "%d generated formulas: every sub-formula re-created bottom-up in a random order through the public constructors, "
+            "rule": "every bit-vector constant of widths 1-6 (edge values of widths 8, 16, 64, 65) in the signed and the unsigned spelling: one "
+                    "object, accessors report the value and width it was built from; %d generated formulas: every sub-formula re-created bottom-up in a random order through the public constructors, "
                     "interleaved with unrelated constructions and with each numeric constant in a random spelling (int / Fraction / "
                     "pair / float / binary string) must be the same object; no two objects with one structure over the whole run; "
                     "copies into a destination environment that serves several source environments must have the same structure "
